@@ -40,6 +40,7 @@ type Exec struct {
 	warnings  []string
 	inlineDepth int
 	subsetFail []string
+	curReveal []string
 	allPkgs   []*packages.Package
 	typeCache map[string]types.Type
 }
@@ -215,7 +216,8 @@ func (x *Exec) isRepoFunc(fn *ssa.Function) bool {
 	return x.repoPkgs[fn.Pkg.Pkg.Path()]
 }
 
-// effectsOf: heap arrays (by name) a function may write, transitively
+// effectsOf: heap arrays (by name) a function may write, transitively.
+// value true: may write at pre-existing objects; false: writes only at objects allocated during the call (fresh-only).
 func (x *Exec) effectsOf(fn *ssa.Function) map[string]bool {
 	if e, ok := x.effects[fn]; ok {
 		return e
@@ -225,7 +227,6 @@ func (x *Exec) effectsOf(fn *ssa.Function) map[string]bool {
 	}
 	x.effBusy[fn] = true
 	e := map[string]bool{}
-	// declared extra effects
 	if c := x.contractOf(fn); c != nil {
 		for _, m := range c.Modifies {
 			e[m] = true
@@ -242,9 +243,9 @@ func (x *Exec) effectsOf(fn *ssa.Function) map[string]bool {
 	changed := true
 	for iter := 0; changed && iter < 4; iter++ {
 		changed = false
-		add := func(n string) {
-			if !e[n] {
-				e[n] = true
+		add := func(n string, full bool) {
+			if cur, ok := e[n]; !ok || (full && !cur) {
+				e[n] = full
 				changed = true
 			}
 		}
@@ -252,24 +253,37 @@ func (x *Exec) effectsOf(fn *ssa.Function) map[string]bool {
 			for _, in := range b.Instrs {
 				switch in := in.(type) {
 				case *ssa.Store:
+					_, rootIsAlloc := rootOf(in.Addr).(*ssa.Alloc)
 					for _, n := range x.heapTargets(in.Addr) {
-						add(n)
+						add(n, !rootIsAlloc)
 					}
+				case *ssa.Alloc:
+					if !allocIsCell(in) {
+						elem := in.Type().Underlying().(*types.Pointer).Elem()
+						for _, n := range x.arraysOfType(elem) {
+							add(n, false)
+						}
+					}
+				case *ssa.MakeMap:
+					mt := in.Type().Underlying().(*types.Map)
+					d, v := x.reg.MapArrays(x.reg.SortOf(mt.Key()), x.reg.SortOf(mt.Elem()))
+					add(d, false)
+					add(v, false)
 				case *ssa.MapUpdate:
 					mt := in.Map.Type().Underlying().(*types.Map)
 					d, v := x.reg.MapArrays(x.reg.SortOf(mt.Key()), x.reg.SortOf(mt.Elem()))
-					add(d)
-					add(v)
+					add(d, true)
+					add(v, true)
 				case ssa.CallInstruction:
-					for n := range x.callEffects(in.Common(), fn) {
-						add(n)
+					for n, full := range x.callEffects(in.Common(), fn) {
+						add(n, full)
 					}
 				}
 			}
 		}
 		for _, af := range fn.AnonFuncs {
-			for n := range x.effectsOf(af) {
-				add(n)
+			for n, full := range x.effectsOf(af) {
+				add(n, full)
 			}
 		}
 	}
@@ -278,12 +292,31 @@ func (x *Exec) effectsOf(fn *ssa.Function) map[string]bool {
 	return e
 }
 
+// heap arrays that hold an object of type t
+func (x *Exec) arraysOfType(t types.Type) []string {
+	if si := x.structOf(t); si != nil {
+		var ns []string
+		for i := range si.Fields {
+			n, _ := x.reg.FieldArray(si, i)
+			ns = append(ns, n)
+		}
+		return ns
+	}
+	return []string{x.reg.BoxArray(x.reg.SortOf(t))}
+}
+
+func mergeEff(dst map[string]bool, n string, full bool) {
+	if cur, ok := dst[n]; !ok || (full && !cur) {
+		dst[n] = full
+	}
+}
+
 func (x *Exec) callEffects(c *ssa.CallCommon, in *ssa.Function) map[string]bool {
 	e := map[string]bool{}
 	if c.IsInvoke() {
 		for _, impl := range x.implementers(c) {
-			for n := range x.effectsOf(impl) {
-				e[n] = true
+			for n, full := range x.effectsOf(impl) {
+				mergeEff(e, n, full)
 			}
 		}
 		e["$trace"] = true
@@ -293,8 +326,8 @@ func (x *Exec) callEffects(c *ssa.CallCommon, in *ssa.Function) map[string]bool 
 		return e
 	}
 	if callee := c.StaticCallee(); callee != nil {
-		for n := range x.effectsOf(callee) {
-			e[n] = true
+		for n, full := range x.effectsOf(callee) {
+			mergeEff(e, n, full)
 		}
 		return e
 	}
@@ -430,6 +463,7 @@ type Obligation struct {
 	Pos     string
 	Callee  string
 	Src     string
+	Reveal  []string
 }
 
 func (o *Obligation) FullName() string {
@@ -440,7 +474,7 @@ func (x *Exec) oblige(st *State, kind, name string, goal *Term, pos token.Pos) {
 	if goal.S == "true" || st.dead {
 		return
 	}
-	o := &Obligation{Func: x.curFn, Kind: kind, Name: name, Goal: goal.S,
+	o := &Obligation{Func: x.curFn, Kind: kind, Name: name, Goal: goal.S, Reveal: x.curReveal,
 		Assume: append([]string(nil), st.assume...), Decls: append([]string(nil), st.decls...),
 		Path: append([]string(nil), st.path...), Pos: x.posStr(pos)}
 	x.obls = append(x.obls, o)
